@@ -18,6 +18,8 @@ CLAUSE = CLAUSE + (" The 'whole page consumed' resume row that highlight() prese
 CLAUSE = CLAUSE + (" cache_network_add_page updates the subpage range the page walk relies on so that the upper bound is "
                    "raised independently of whether the lower bound was (re)initialised; in _ure_add_range each range endpoint "
                    "is case-folded from itself.")
+CLAUSE = CLAUSE + (" (RF-CMP) every comparison of the current position with the stop position is inclusive in the walk direction "
+                   "(forward >=, backward <=).")
 NOT_DECIDED = ("that exactly the matching pages are found, in order, each once (values); the regex engine's matching semantics; "
                "haystack construction.")
 
@@ -89,6 +91,7 @@ def run(ctx, run):
     _subno_bounds_independent(ctx, run)
     _casefold_endpoints(ctx, run)
     _restart_inside_failed_attempt(ctx, run)
+    _stop_inclusive(ctx, run)
 
 
 def _metachars(ctx, run):
@@ -388,3 +391,47 @@ def _restart_inside_failed_attempt(ctx, run):
                           "that failed: a match beginning inside the failed attempt is missed (\"ab\" in \"aab\", \"needle\" in "
                           "\"neneedle\") - pages that contain the text are not found", ex.loc(f, i))
     run.floor("automaton resets inside the matching loop of ure_exec", n, 1)
+
+
+def _stop_inclusive(ctx, run):
+    """RF-CMP: a pass ends when the walk arrives at the stop position *itself* - the page the
+    pass started on has been searched when the pass began.  Every comparison of the current
+    position with `stop` in the two callbacks is therefore inclusive in the walk direction
+    (forward `this >= stop`, backward `this <= stop`); an exclusive test lets the walk pass the
+    stop page, search it a second time and start another lap: the pass never reports
+    not-found."""
+    P = ctx.prog
+    for name, want in (("search_page_fwd", ">="), ("search_page_rev", "<=")):
+        f = P.need(name, SEARCH)
+        run.touch(f)
+        n = 0
+        bad = []
+        for i, e in enumerate(f.exprs):
+            if e["k"] != "bin" or e["op"] not in ("<", "<=", ">", ">=", "==", "!="):
+                continue
+            a, b = [f.exprs[ex.skip(f, c)] for c in e["c"]]
+            while a["k"] == "cast":
+                a = f.exprs[ex.skip(f, a["c"][0])]
+            while b["k"] == "cast":
+                b = f.exprs[ex.skip(f, b["c"][0])]
+            if a["k"] != "ref" or b["k"] != "ref":
+                continue
+            names = (a.get("name"), b.get("name"))
+            if "stop" not in names or "start" in names:
+                continue
+            op = e["op"]
+            if names[0] == "stop":
+                op = {"<": ">", "<=": ">=", ">": "<", ">=": "<=", "==": "==", "!=": "!="}[op]
+            n += 1
+            if op != want:
+                bad.append((i, op))
+        if n < 2:
+            raise AnalysisBroken("%s: stop comparisons not found (%d)" % (name, n))
+        key = "RF-CMP:%s:stop-inclusive" % name
+        if bad:
+            i, op = bad[0]
+            run.violation("RF-CMP", key, "%s() tests the current position against the stop position with `%s` (%s), not `%s`: the "
+                          "walk passes the stop page, searches it again and begins another lap - the pass never reports "
+                          "not-found" % (name, op, ex.pretty(f, i)[:30], want), ex.loc(f, i))
+        else:
+            run.holds("RF-CMP", key, "%d comparisons with the stop position, all `%s`" % (n, want), "%s:%d" % (f.file, f.line))
